@@ -62,27 +62,39 @@ def _gen_file(rng, wellformed):
             size = rng.range(1, 0x60)
             lines.append("FUNC %s%x %x %x fn%d%s" % ("m " if rng.chance(1, 8) else "", addr, size, rng.below(32), si, rng.choice(["", "(int)", " const"])))
             lookups += [addr, addr + size - 1, addr + size, addr + size // 2]
-            # inline records
+            # inline records: per depth a set of disjoint ranges, spread over 1..3 INLINE records per depth (a record may carry several ranges, in any
+            # order; the ranges of different records interleave), deeper ranges nested in shallower ones; the records are written in any order
             if norig and rng.chance(2, 3):
-                d0s = addr + rng.below(max(1, size // 2))
-                d0e = min(addr + size, d0s + rng.range(1, max(1, size // 2)))
-                if d0e > d0s:
-                    pairs = "%x %x" % (d0s, d0e - d0s)
-                    second = None
-                    if d0e + 2 < addr + size and rng.chance(1, 2):
-                        s2 = d0e + 1
-                        e2 = min(addr + size, s2 + rng.range(1, 8))
-                        pairs += " %x %x" % (s2, e2 - s2)
-                        second = (s2, e2)
-                    lines.append("INLINE 0 %d %d %d %s" % (rng.below(500), rng.below(max(1, nfiles)) if nfiles else 0, rng.below(norig), pairs))
-                    lookups += [d0s - 1, d0s, d0e - 1, d0e]
-                    if second:
-                        lookups += [second[0], second[1] - 1, second[1]]
-                    if d0e - d0s > 2 and rng.chance(1, 2):
-                        d1s = d0s + 1
-                        d1e = d0e - 1 if d0e - 1 > d1s else d0e
-                        lines.append("INLINE 1 %d %d %d %x %x" % (rng.below(500), rng.below(max(1, nfiles)) if nfiles else 0, rng.below(norig), d1s, d1e - d1s))
-                        lookups += [d1s, d1e - 1, d1e]
+                recs = []
+
+                def inl(lo, hi, depth):
+                    ranges, a = [], lo
+                    while a < hi and len(ranges) < 5:
+                        a += rng.below(4)
+                        if a >= hi:
+                            break
+                        ln = min(rng.range(1, 12), hi - a)
+                        ranges.append((a, a + ln))
+                        a += ln
+                    if not ranges:
+                        return
+                    nrec = rng.range(1, min(3, len(ranges)))
+                    buckets = [[] for _ in range(nrec)]
+                    for rg in ranges:
+                        buckets[rng.below(nrec)].append(rg)
+                    for b in buckets:
+                        if b:
+                            rng_shuffle(rng, b)
+                            recs.append((depth, rng.below(500), rng.below(max(1, nfiles)) if nfiles else 0, rng.below(norig), b))
+                    for (a0, a1) in ranges:
+                        lookups.extend([a0 - 1, a0, a1 - 1, a1])
+                        if depth < 2 and a1 - a0 > 2 and rng.chance(1, 2):
+                            inl(a0 + rng.below(2), a1 - rng.below(2), depth + 1)
+                inl(addr + rng.below(max(1, size // 3)), addr + size, 0)
+                if rng.chance(2, 3):
+                    rng_shuffle(rng, recs)
+                for (dp, cl, cf, og, b) in recs:
+                    lines.append("INLINE %d %d %d %d %s" % (dp, cl, cf, og, " ".join("%x %x" % (x, y - x) for x, y in b)))
             # line records, ascending
             la = addr
             while la < addr + size:
@@ -112,7 +124,10 @@ def _gen_file(rng, wellformed):
     if rng.chance(1, 3):
         out = out[:-len(eol)] if not mixed else out.rstrip("\r\n")
     lookups = sorted(set(a for a in lookups if 0 <= a <= 0xFFFFFFFF))
-    return out, lookups[:60]
+    if len(lookups) > 90:
+        rng_shuffle(rng, lookups)
+        lookups = sorted(lookups[:90])
+    return out, lookups
 
 
 def rng_shuffle(rng, xs):
